@@ -27,7 +27,7 @@ class C33(Check):
             "on Semaphore(0|1|2), BoundedSemaphore(1|2), Lock; state = (value, waiter deque done-flags, "
             "gc counter, remaining times of pending futures, loop timers); after every op the state of every "
             "future, the op's result/raise and the reference invariants are compared; plus one long "
-            "history with 103 timed-out waiters; non-trivial = states with a pending waiter or reached "
+            "history with 103 timed-out waiters behind three live ones; non-trivial = states with a pending waiter or reached "
             "through a cancel/advance")
     claim = ("Every operation history within the bound is executed on the real objects; agreement with a "
              "sequential reference model implies no over-grant, FIFO service among live waiters, no lost "
@@ -43,6 +43,7 @@ class C33(Check):
     def partitions(self, tier):
         parts = [(spec, i) for spec in SPECS for i in range(len(OPS))]
         parts.append(("gc", 0))
+        parts += [(spec, "burst") for spec in SPECS]      # several operations within one loop iteration
         return parts
 
     def run_partition(self, part, tier, st):
@@ -50,7 +51,9 @@ class C33(Check):
         if spec == "gc":
             for sp in (("sem", 0), ("lock",)):
                 pre = [("acq", None)] if sp[0] == "lock" else []
-                hist = pre + gc_history("acq") + [("acq", None), ("rel",), ("acq", "td"), ("rel",), ("rel",)]
+                # three live waiters are queued while the collector prunes the timed-out ones: service stays FIFO
+                pre += [("acq", None), ("acq", None), ("acq", None)]
+                hist = pre + gc_history("acq") + [("rel",), ("acq", None), ("rel",), ("acq", "td"), ("rel",), ("rel",), ("rel",)]
                 st.ev()
                 st.transitions += len(hist)
                 try:
@@ -61,12 +64,15 @@ class C33(Check):
                     st.violation("gc:%s:%s" % (sp[0], m.what.split(" ")[0]),
                                  "%r gc history: %s" % (sp, m), {"spec": sp, "hist": hist})
             return
+        if i == "burst":
+            syncmodel.burst_family(spec, OPS, [("acq", None), ("rel",), ("acq", "zero")], 6 if tier == "quick" else 8, st)
+            return
         syncmodel.bfs(spec, OPS, [OPS[i]], self.depth(tier), st)
         st.setmax("depth", self.depth(tier))
 
     def replay(self, case):
         spec = tuple(case["spec"])
-        hist = tuple(tuple(o) for o in case["hist"])
+        hist = tuple(tuple(o) if o[0] != "burst" else ("burst", tuple(tuple(x) for x in o[1])) for o in case["hist"])
         try:
             canon, nf = syncmodel.run_history(spec, hist)
             return "history agrees with the reference; state %r" % (canon,)
